@@ -317,6 +317,21 @@ class C05(Prop):
         names = ['x', 'y']
         case = self.gen_independent(rng, f, names, False)
         sig = sig_from_json(case['signals'])
+        if o.startswith('since') and rng.random() < 0.6:
+            # the LEFT operand becomes defined strictly later than the right one (and the right one is large before
+            # the left one exists)
+            late = Fr(rng.randint(1, 8), 4)
+            first = sig['y'][0][0]
+            sig['x'] = [(t + (first - sig['x'][0][0]) + late, val) for t, val in sig['x']]
+            # (a coherent picture: the left predicate holds; the right one holds with a margin before the left operand
+            # exists and fails afterwards - the memory of the earlier right values must not be combined with the left)
+            lp, rp = (f[2], f[3]) if f[0] == 'since' else (f[2][2], f[2][3])
+            lc, rc = lp[3][2], rp[3][2]
+            sgn_l, sgn_r = (1 if lp[0] == 'geq' else -1), (1 if rp[0] == 'geq' else -1)
+            sig['x'] = [(t, lc + sgn_l * rng.choice([0.5, 1.0, 2.0])) for t, _ in sig['x']]
+            sig['y'] = [(t, rc + sgn_r * (rng.choice([3.0, 4.0]) if t < sig['x'][0][0] else -rng.choice([1.0, 2.0, 3.0])))
+                        for t, _ in sig['y']]
+            case['signals'] = sig_text(sig)
         case['interleaved'] = [self.gen_interleaved(rng, sig, names) for _ in range(3)]
         case['binop'] = o
         return case
@@ -368,7 +383,7 @@ class C05(Prop):
     def extra(self, ctx):
         per = 4 if ctx.tier == 'quick' else max(2, 400 // ctx.nshards)
         for o in self.BINOPS:
-            for _ in range(per):
+            for _ in range(per * 4 if o.startswith('since') else per):      # (since: the late-left-operand picture)
                 if ctx.out_of_time():
                     break
                 self.check(ctx, self.gen_binop(ctx.rng, o))
